@@ -366,7 +366,7 @@ const TIME_BOUNDARY: &[i32] = &[
     32767, 32768, -32768, -32769, 65535, 65536, i32::MAX, i32::MAX - 1, i32::MIN, i32::MIN + 1, 0x4000_0000, -0x4000_0000,
 ];
 
-fn time_value(rng: &mut Rng, wild: bool) -> i32 {
+pub(crate) fn time_value(rng: &mut Rng, wild: bool) -> i32 {
     if wild {
         match rng.below(3) { 0 => *rng.pick(TIME_BOUNDARY), 1 => rng.next_u32() as i32, _ => rng.range(-40, 120) as i32 }
     } else {
@@ -436,7 +436,7 @@ fn strip_else(stmts: &mut Vec<Sexp>) {
 fn has_block(stmts: &[Sexp]) -> bool { stmts.iter().any(|s| s.head() == Some("blk")) }
 fn count_instrs(stmts: &[Sexp]) -> usize { stmts.iter().map(|s| match s.head() { Some("ins") => 1, Some("blk") => count_instrs(&s.args()[1..]), _ => 0 }).sum() }
 
-fn gen_times(rng: &mut Rng, n: usize) -> Vec<i32> {
+pub(crate) fn gen_times(rng: &mut Rng, n: usize) -> Vec<i32> {
     let mode = rng.below(6);
     let mut t: i32 = match mode { 0 => -1, 1 => time_value(rng, true), _ => 0 };
     let mut out = vec![];
